@@ -30,7 +30,7 @@ MANIFEST = {
             "labels and the Builder path are not modelled. Model follows the repaired code (fixes/C03-1, C03-2).",
 }
 MODS = ["AsmjitVerif.Props.C03", "AsmjitVerif.Props.C03E", "AsmjitVerif.Props.C03B", "AsmjitVerif.Props.C03D", "AsmjitVerif.Props.C03S",
-        "AsmjitVerif.Props.C03N", "AsmjitVerif.Props.C03A64", "AsmjitVerif.Props.C03R"]
+        "AsmjitVerif.Props.C03N", "AsmjitVerif.Props.C03A64", "AsmjitVerif.Props.C03L", "AsmjitVerif.Props.C03R"]
 M64 = (1 << 64) - 1
 
 JK = ["jmp", "jz", "call", "jecxz", "loop"]
